@@ -106,7 +106,7 @@ def run_case(case):
     for s in syms:
         tfs = {'1m'} | {tf for (x, tf) in case['trading'] + case['data'] if x == s}
         readable += [(s, tf) for tf in sorted(tfs, key=lambda t: TFMIN[t])]
-    st = dict(ev=[], lastpart={}, fills=0, fin=None, steps=0, hookreads=0, formingreads=0, fill_minutes=set())
+    st = dict(ev=[], lastpart={}, fills=0, fin=None, steps=0, hookreads=0, formingreads=0, fill_minutes=set(), skipped=0)
     full_at = set(case.get('full_samples', []))
     every = max(1, case.get('obs_every', 1))
 
@@ -128,6 +128,13 @@ def run_case(case):
             opp[(s, tf)] = opp.get((s, tf), 0) + 1
             if at != 'end' and opp[(s, tf)] % stride[(s, tf)] != 0 and opp[(s, tf)] > 2:
                 continue
+            try:
+                read_one(at, force_full, s, tf, T)
+            except EncodeError:          # a partial candle at a non-integer fill price: this read cannot be encoded exactly
+                st['skipped'] += 1
+
+    def read_one(at, force_full, s, tf, T):
+        if True:
             e = dict(k='read', s=syms.index(s) + 1, T=T, at=at, ok=True, exc='none', n=0, rows=[], n1=0, m1tail=[],
                      cur=[], curok=True, curexc='none', full=[], isfull=False, part=[])
             m1 = store.candles.get_candles(ex, s, '1m')
@@ -191,8 +198,8 @@ def run_case(case):
         try:
             st['lastpart'][symbol] = enc_row(candle, base)
             st['fill_minutes'].add((symbol, st['lastpart'][symbol][0]))
-        except EncodeError as ex_:
-            st['enc_err'] = str(ex_)
+        except EncodeError:
+            st['lastpart'][symbol] = None
         return r
     bm._update_all_routes_a_partial_candle = upd
     try:
@@ -230,7 +237,7 @@ def run_case(case):
                routes=['%s:%s' % r for r in case['trading']], data=['%s:%s' % r for r in case['data']],
                syms=[dict(name=s, inp=enc_rows(raw[s], base), fin=st['fin'][s]) for s in syms])
     stats = dict(fills=st['fills'], steps=st['steps'], hookreads=st['hookreads'], formingreads=st['formingreads'],
-                 fill_minutes=sorted(m for (_, m) in st['fill_minutes']), reads=sum(1 for e in st['ev'] if e['k'] == 'read'))
+                 skipped=st['skipped'], fill_minutes=sorted(m for (_, m) in st['fill_minutes']), reads=sum(1 for e in st['ev'] if e['k'] == 'read'))
     return dict(id=case['id'], hdr=hdr, ev=st['ev'], stats=stats, case=case, enc_err=st.get('enc_err'))
 
 
